@@ -1324,6 +1324,11 @@ func (l *Lowerer) coerceScalarToType(kind ir.ScalarKind, bits uint64, typeHandle
 	if !ok {
 		return kind, bits
 	}
+	return coerceScalarToScalar(kind, bits, scalar)
+}
+
+// coerceScalarToScalar converts a scalar value to the target scalar's kind.
+func coerceScalarToScalar(kind ir.ScalarKind, bits uint64, scalar ir.ScalarType) (ir.ScalarKind, uint64) {
 	targetKind := scalar.Kind
 	if targetKind == kind {
 		return kind, bits
@@ -10167,43 +10172,52 @@ func (l *Lowerer) scalarValueToLiteralWithType(sv ir.ScalarValue, typeHandle ir.
 	// Get the scalar type width from the type arena
 	if int(typeHandle) < len(l.module.Types) {
 		if st, ok := l.module.Types[typeHandle].Inner.(ir.ScalarType); ok {
-			switch sv.Kind {
-			case ir.ScalarFloat, ir.ScalarAbstractFloat:
-				switch st.Width {
-				case 2:
-					return ir.LiteralF16(halfToFloat32(uint16(sv.Bits)))
-				case 4:
-					return ir.LiteralF32(math.Float32frombits(uint32(sv.Bits)))
-				case 8:
-					if sv.Kind == ir.ScalarAbstractFloat {
-						// Concretize AbstractFloat → F32 when deep-copying to function
-						return ir.LiteralF32(math.Float32frombits(uint32(sv.Bits)))
-					}
-					return ir.LiteralF64(math.Float64frombits(sv.Bits))
-				}
-			case ir.ScalarSint, ir.ScalarAbstractInt:
-				switch st.Width {
-				case 8:
-					if sv.Kind == ir.ScalarAbstractInt {
-						// Concretize AbstractInt → I32 when deep-copying to function
-						return ir.LiteralI32(int32(sv.Bits))
-					}
-					return ir.LiteralI64(int64(sv.Bits))
-				default:
-					return ir.LiteralI32(int32(sv.Bits))
-				}
-			case ir.ScalarUint:
-				switch st.Width {
-				case 8:
-					return ir.LiteralU64(sv.Bits)
-				default:
-					return ir.LiteralU32(uint32(sv.Bits))
-				}
+			if lit := literalForScalar(sv, st); lit != nil {
+				return lit
 			}
 		}
 	}
 	// Fallback to non-type-aware conversion
 	return scalarValueToLiteral(sv)
+}
+
+// literalForScalar converts a ScalarValue to the literal of the given scalar
+// type's width, or nil when the kind has no width-specific form.
+func literalForScalar(sv ir.ScalarValue, st ir.ScalarType) ir.LiteralValue {
+	switch sv.Kind {
+	case ir.ScalarFloat, ir.ScalarAbstractFloat:
+		switch st.Width {
+		case 2:
+			return ir.LiteralF16(halfToFloat32(uint16(sv.Bits)))
+		case 4:
+			return ir.LiteralF32(math.Float32frombits(uint32(sv.Bits)))
+		case 8:
+			if sv.Kind == ir.ScalarAbstractFloat {
+				// Concretize AbstractFloat → F32 when deep-copying to function
+				return ir.LiteralF32(math.Float32frombits(uint32(sv.Bits)))
+			}
+			return ir.LiteralF64(math.Float64frombits(sv.Bits))
+		}
+	case ir.ScalarSint, ir.ScalarAbstractInt:
+		switch st.Width {
+		case 8:
+			if sv.Kind == ir.ScalarAbstractInt {
+				// Concretize AbstractInt → I32 when deep-copying to function
+				return ir.LiteralI32(int32(sv.Bits))
+			}
+			return ir.LiteralI64(int64(sv.Bits))
+		default:
+			return ir.LiteralI32(int32(sv.Bits))
+		}
+	case ir.ScalarUint:
+		switch st.Width {
+		case 8:
+			return ir.LiteralU64(sv.Bits)
+		default:
+			return ir.LiteralU32(uint32(sv.Bits))
+		}
+	}
+	return nil
 }
 
 func (l *Lowerer) resolveIdentifier(name string) (ir.ExpressionHandle, error) {
@@ -16187,6 +16201,24 @@ func (l *Lowerer) buildGlobalExprFromAST(
 	expectedType ir.TypeHandle,
 	addExpr func(ir.ExpressionKind) ir.ExpressionHandle,
 ) (ir.ExpressionHandle, bool) {
+	return l.buildGlobalExprFor(expr, expectedType, nil, addExpr)
+}
+
+// buildGlobalExprFor is buildGlobalExprFromAST for an operand whose target is
+// either a type of the (compacted) arena or, when expectedScalar is set, the
+// scalar of a vector or matrix: that scalar is embedded by value in its parent
+// and need not have a handle of its own.
+func (l *Lowerer) buildGlobalExprFor(
+	expr parser.Expr,
+	expectedType ir.TypeHandle,
+	expectedScalar *ir.ScalarType,
+	addExpr func(ir.ExpressionKind) ir.ExpressionHandle,
+) (ir.ExpressionHandle, bool) {
+	if expectedScalar == nil && int(expectedType) < len(l.module.Types) {
+		if st, ok := l.module.Types[expectedType].Inner.(ir.ScalarType); ok {
+			expectedScalar = &st
+		}
+	}
 	switch e := expr.(type) {
 	case *parser.Literal:
 		// Literal value: convert to the expected type's scalar kind.
@@ -16194,12 +16226,14 @@ func (l *Lowerer) buildGlobalExprFromAST(
 		if err != nil {
 			return 0, false
 		}
-		// Coerce to the expected type if known.
-		kind, bits = l.coerceScalarToType(kind, bits, expectedType)
-		sv := ir.ScalarValue{Bits: bits, Kind: kind}
-		lit := l.scalarValueToLiteralWithType(sv, expectedType)
+		// Coerce to the expected scalar if known.
+		var lit ir.LiteralValue
+		if expectedScalar != nil {
+			kind, bits = coerceScalarToScalar(kind, bits, *expectedScalar)
+			lit = literalForScalar(ir.ScalarValue{Bits: bits, Kind: kind}, *expectedScalar)
+		}
 		if lit == nil {
-			lit = scalarValueToLiteral(sv)
+			lit = scalarValueToLiteral(ir.ScalarValue{Bits: bits, Kind: kind})
 		}
 		if lit == nil {
 			return 0, false
@@ -16208,7 +16242,9 @@ func (l *Lowerer) buildGlobalExprFromAST(
 
 	case *parser.CallExpr:
 		// Struct constructor: StructName(arg1, arg2, ...)
-		structTypeH, ok := l.types[e.Func.Name]
+		// The name is resolved in the compacted arena: l.types holds the
+		// handles from before CompactTypes renumbered it.
+		structTypeH, ok := l.findStructType(e.Func.Name, expectedType)
 		if !ok {
 			return 0, false
 		}
@@ -16221,6 +16257,9 @@ func (l *Lowerer) buildGlobalExprFromAST(
 			memberType := ir.TypeHandle(0)
 			if i < len(st.Members) {
 				memberType = st.Members[i].Type
+			}
+			if i >= len(st.Members) {
+				return 0, false
 			}
 			h, ok := l.buildGlobalExprFromAST(arg, memberType, addExpr)
 			if !ok {
@@ -16239,7 +16278,10 @@ func (l *Lowerer) buildGlobalExprFromAST(
 		// from AST, since this runs after CompactTypes and resolveType could
 		// re-register compacted types.
 		typeH := expectedType
-		componentType := l.getConstructComponentType(typeH)
+		if int(typeH) >= len(l.module.Types) {
+			return 0, false
+		}
+		componentType, componentScalar := l.getConstructComponentType(typeH)
 
 		// For matrices with scalar args: group scalars into column vector Composes.
 		// mat2x2(1, 2, 3, 4) → Compose(mat2x2, [Compose(vec2, [1.0, 2.0]), Compose(vec2, [3.0, 4.0])])
@@ -16249,12 +16291,11 @@ func (l *Lowerer) buildGlobalExprFromAST(
 				rows := int(mat.Rows)
 				if len(e.Args) == cols*rows {
 					// All scalar args — group into column vectors
-					scalarType := l.findScalarType(mat.Scalar.Kind, mat.Scalar.Width)
 					colComponents := make([]ir.ExpressionHandle, cols)
 					for c := 0; c < cols; c++ {
 						rowHandles := make([]ir.ExpressionHandle, rows)
 						for r := 0; r < rows; r++ {
-							h, ok := l.buildGlobalExprFromAST(e.Args[c*rows+r], scalarType, addExpr)
+							h, ok := l.buildGlobalExprFor(e.Args[c*rows+r], 0, &mat.Scalar, addExpr)
 							if !ok {
 								return 0, false
 							}
@@ -16283,7 +16324,7 @@ func (l *Lowerer) buildGlobalExprFromAST(
 
 		components := make([]ir.ExpressionHandle, len(e.Args))
 		for i, arg := range e.Args {
-			h, ok := l.buildGlobalExprFromAST(arg, componentType, addExpr)
+			h, ok := l.buildGlobalExprFor(arg, componentType, componentScalar, addExpr)
 			if !ok {
 				return 0, false
 			}
@@ -16304,7 +16345,7 @@ func (l *Lowerer) buildGlobalExprFromAST(
 
 	case *parser.UnaryExpr:
 		if e.Op == parser.TokenMinus {
-			h, ok := l.buildGlobalExprFromAST(e.Operand, expectedType, addExpr)
+			h, ok := l.buildGlobalExprFor(e.Operand, expectedType, expectedScalar, addExpr)
 			if !ok {
 				return 0, false
 			}
@@ -16369,7 +16410,7 @@ func (l *Lowerer) expandZeroConstructGE(
 		// mat2x2() → Compose(mat, [Compose(col_vec, [0,0]), Compose(col_vec, [0,0])])
 		colTypeH := l.findVectorType(t.Rows, t.Scalar)
 		zeroLit := l.zeroLiteralForScalar(t.Scalar)
-		if zeroLit == nil || colTypeH == 0 {
+		if zeroLit == nil {
 			return addExpr(ir.ExprZeroValue{Type: typeH}), true
 		}
 		cols := int(t.Columns)
@@ -16389,45 +16430,59 @@ func (l *Lowerer) expandZeroConstructGE(
 }
 
 // getConstructComponentType returns the element/component type for a composite type.
-// For vectors, returns the scalar type. For arrays, returns the base type.
-// For matrices, returns the column vector type.
-// IMPORTANT: This must NOT register new types — it's called after CompactTypes.
-func (l *Lowerer) getConstructComponentType(typeH ir.TypeHandle) ir.TypeHandle {
+// For arrays, returns the base type. For matrices, returns the column vector type.
+// For vectors the component is a scalar embedded by value, which may have no
+// handle in the compacted arena: it is returned as the second result.
+// IMPORTANT: This must NOT go through the type registry — it's called after CompactTypes.
+func (l *Lowerer) getConstructComponentType(typeH ir.TypeHandle) (ir.TypeHandle, *ir.ScalarType) {
 	if int(typeH) >= len(l.module.Types) {
-		return 0
+		return typeH, nil
 	}
 	switch t := l.module.Types[typeH].Inner.(type) {
 	case ir.VectorType:
-		// Find the scalar type by searching existing types (don't register new ones).
-		return l.findScalarType(t.Scalar.Kind, t.Scalar.Width)
+		return 0, &t.Scalar
 	case ir.ArrayType:
-		return t.Base
+		return t.Base, nil
 	case ir.MatrixType:
-		// Find the column vector type by searching existing types.
-		return l.findVectorType(t.Rows, t.Scalar)
+		return l.findVectorType(t.Rows, t.Scalar), nil
 	default:
-		return 0
+		return typeH, nil
 	}
 }
 
-// findScalarType finds an existing scalar type handle without creating a new one.
-func (l *Lowerer) findScalarType(kind ir.ScalarKind, width uint8) ir.TypeHandle {
-	for i, t := range l.module.Types {
-		if st, ok := t.Inner.(ir.ScalarType); ok && st.Kind == kind && st.Width == width {
-			return ir.TypeHandle(i)
-		}
-	}
-	return 0
-}
-
-// findVectorType finds an existing vector type handle without creating a new one.
+// findVectorType returns the handle of a vector type in the compacted arena.
+// A column vector is embedded by value in its matrix type, so it may have been
+// compacted away; it is then appended (existing handles stay valid).
 func (l *Lowerer) findVectorType(size ir.VectorSize, scalar ir.ScalarType) ir.TypeHandle {
 	for i, t := range l.module.Types {
 		if vt, ok := t.Inner.(ir.VectorType); ok && vt.Size == size && vt.Scalar == scalar {
 			return ir.TypeHandle(i)
 		}
 	}
-	return 0
+	l.module.Types = append(l.module.Types, ir.Type{Inner: ir.VectorType{Size: size, Scalar: scalar}})
+	return ir.TypeHandle(len(l.module.Types) - 1)
+}
+
+// findStructType resolves a struct constructor's name in the compacted arena.
+// expected is preferred when it is that struct (or an alias of it).
+func (l *Lowerer) findStructType(name string, expected ir.TypeHandle) (ir.TypeHandle, bool) {
+	if int(expected) < len(l.module.Types) {
+		if _, ok := l.module.Types[expected].Inner.(ir.StructType); ok && l.module.Types[expected].Name == name {
+			return expected, true
+		}
+	}
+	for i, t := range l.module.Types {
+		if _, ok := t.Inner.(ir.StructType); ok && t.Name == name {
+			return ir.TypeHandle(i), true
+		}
+	}
+	// not a struct's own name: an alias of the expected struct type
+	if int(expected) < len(l.module.Types) {
+		if _, ok := l.module.Types[expected].Inner.(ir.StructType); ok {
+			return expected, true
+		}
+	}
+	return 0, false
 }
 
 // buildOverrideGlobalExpr recursively builds global expressions from an
